@@ -124,6 +124,14 @@ class odict(dict):
         """
         return self.items()
 
+    def __reduce__(self):
+        """
+        Rebuild through the class itself with every pickle protocol so that __new__
+        creates ._keys. Protocols 0 and 1 otherwise rebuild with dict.__new__ which
+        leaves an empty odict (whose false state skips __setstate__) without ._keys.
+        """
+        return (self.__class__, tuple(), self.__getstate__())
+
     def __setstate__(self, state):
         """
         restore from state items list
